@@ -79,4 +79,20 @@ Section Spec.
     forall loc t, visible loc = true -> fs loc = Some (NLink t) -> exists k, good_key k = true /\ t = blob k /\ complete fs k.
   Definition disciplined (s : sys) : Prop :=
     forall p, In p (s_procs s) -> todo_ok (fun k => complete (s_fs s) k) (p_todo p).
+
+  (* ---- C07, writers: the store directories exist and the committed locations do not get in each other's way ---- *)
+  (* the locations that the processes of s will ever commit (sync_paths items of their pending operations) *)
+  Definition commits (s : sys) (loc : path) : Prop :=
+    exists p items k, In p (s_procs s) /\ In (OpSync items) (p_todo p) /\ In (loc, k) items.
+  Definition writers_ok (s : sys) : Prop :=
+    (* the directories of the store exist *)
+    (forall d, In d (dirs_between [] root ++ dirs_between [] data ++ [blobs_dir root]) -> s_fs s d = Some NDir) /\
+    s_fs s data = Some NDir /\
+    (* no committed location is a strict prefix of another one *)
+    (forall loc loc', commits s loc -> commits s loc' -> is_prefix loc loc' = true -> loc = loc') /\
+    (* below data, a strict ancestor of a committed location is absent or a directory ... *)
+    (forall loc d a b, commits s loc -> a <> [] -> b <> [] -> d = data ++ a -> loc = d ++ b ->
+        s_fs s d = None \/ s_fs s d = Some NDir) /\
+    (* ... and the location itself is absent or a link *)
+    (forall loc, commits s loc -> s_fs s loc = None \/ exists t, s_fs s loc = Some (NLink t)).
 End Spec.
